@@ -8,9 +8,9 @@
 # yield: the harness is built against a scratch copy of the repository in which cmd/yieldify inserted a
 # call to a perturbation hook between all critical sections of package index (copy made from the
 # current working tree at run time, outside /repo and /verif, removed when the run ends).
-# C01 C02 C04 C05 C06 C15 run in two stages in both tiers: the ordinary build, then the yield-instrumented
-# one (its evidence carries the first stage's coverage along; in the thorough tier the second stage runs a
-# quarter of the cases). VERIF_VARIANT=yield forces the instrumented build alone for any id / tier,
+# C01 C02 C04 C05 C06 C11 C15 run in two stages in both tiers (C03 C14 in the thorough tier): the ordinary
+# build, then the yield-instrumented one (its evidence carries the first stage's coverage along; in the
+# thorough tier the second stage runs a quarter of the cases). VERIF_VARIANT=yield forces the instrumented build alone for any id / tier,
 # VERIF_VARIANT=plain the ordinary build alone.
 set -u
 cd "$(dirname "$0")"
@@ -96,7 +96,10 @@ if [ "${VERIF_VARIANT:-}" = "yield" ]; then
   exit $?
 fi
 two_stage=0
-case "$ID" in C01|C02|C04|C05|C06|C15) two_stage=1 ;; esac
+case "$ID" in C01|C02|C04|C05|C06|C11|C15) two_stage=1 ;; esac
+if [ "$MODE" = "thorough" ]; then
+  case "$ID" in C03|C14) two_stage=1 ;; esac
+fi
 if [ "${VERIF_VARIANT:-}" = "plain" ]; then two_stage=0; fi
 if [ $two_stage = 0 ]; then
   run_stage 0
